@@ -113,6 +113,15 @@ class FuncVal:
         self.targets = targets   # list of (FuncInfo, skip_self)
         self.selfobj = selfobj
         self.text = text
+        self.bound_args = []     # functools.partial: values bound in front (as pre-evaluated pseudo nodes)
+        self.bound_kw = []       # ... and by keyword
+
+
+class _Pre:
+    """an already evaluated value travelling as an argument node (functools.partial)"""
+
+    def __init__(self, value):
+        self.value = value
 
 
 class Obj:
@@ -330,6 +339,8 @@ class Interp:
         T = self.T
         if isinstance(e, ast.Constant):
             v = e.value
+            if isinstance(v, _Pre):
+                return v.value
             if isinstance(v, bool) or v is None:
                 return v
             if isinstance(v, int):
@@ -563,9 +574,33 @@ class Interp:
                 self.assign(g.target, lo + k, sub, func, selfobj)
             self.loops.append(loop)
             try:
-                self.eval(e.elt, sub, func, selfobj)
+                val = self.eval(e.elt, sub, func, selfobj)
             finally:
                 self.loops.pop()
+            if isinstance(val, Poly) and isinstance(e, ast.ListComp):
+                return SeqV(count, name, val, e)
+            return Opaque('list over ' + U(g.iter))
+        sq = self._seq_of(g.iter, st, func, selfobj)
+        if sq is not None:
+            seq, enum = sq
+            name = '%s@%s.L%d' % (_first_name(g.target), func.name, e.lineno)
+            k = self.T.declare(name, 0, seq.count, kind='loop', count=seq.count, start=C(0), node=e)
+            loop = Loop(name, seq.count, e)
+            loop.lo = C(0)
+            item = seq.elt.subst({seq.atom: k})
+            sub = State(dict(st.env), st.events, st.conds)
+            if enum and isinstance(g.target, (ast.Tuple, ast.List)) and len(g.target.elts) == 2:
+                self.assign(g.target.elts[0], k, sub, func, selfobj)
+                self.assign(g.target.elts[1], item, sub, func, selfobj)
+            else:
+                self.assign(g.target, item, sub, func, selfobj)
+            self.loops.append(loop)
+            try:
+                val = self.eval(e.elt, sub, func, selfobj)
+            finally:
+                self.loops.pop()
+            if isinstance(val, Poly) and isinstance(e, ast.ListComp):
+                return SeqV(seq.count, name, val, e)
             return Opaque('list over ' + U(g.iter))
         it = self.eval(g.iter, st, func, selfobj)
         if not isinstance(it, Tup):
@@ -776,16 +811,32 @@ class Interp:
             fv = self.eval(e.func, st, func, selfobj)
             call_args = args
             pool = False
+        if txt in ('partial', 'functools.partial') and args:
+            base = self.eval(args[0], st, func, selfobj)
+            if isinstance(base, FuncVal) and base.targets:
+                pv = FuncVal(base.targets, base.selfobj, base.text)
+                pv.bound_args = list(base.bound_args) + [ast.Constant(value=_Pre(self.eval(a, st, func, selfobj)))
+                                                         for a in args[1:] if not isinstance(a, ast.Starred)]
+                pv.bound_kw = list(base.bound_kw) + [ast.keyword(arg=k.arg, value=ast.Constant(value=_Pre(
+                    self.eval(k.value, st, func, selfobj)))) for k in e.keywords if k.arg]
+                return pv
+            return Opaque(U(e))
         if isinstance(fv, FuncVal) and fv.targets:
             vals = []
+            kws = list(fv.bound_kw) + [k for k in e.keywords if pool is False or k.arg]
             for (tgt, skip) in fv.targets:
-                vals.append(self.call(tgt, fv.selfobj if skip else None, call_args, e.keywords, st, func, selfobj,
-                                      e, pool))
+                vals.append(self.call(tgt, fv.selfobj if skip else None, list(fv.bound_args) + list(call_args), kws, st,
+                                      func, selfobj, e, pool))
             if len(vals) == 1:
                 return vals[0]
             return vals[0] if all(same(vals[0], v) for v in vals[1:]) else Opaque(U(e))
         if isinstance(fv, ClassVal):
             return self.instantiate(fv.cls, call_args, e.keywords, st, func, selfobj, e)
+        if last in ('append', 'extend', 'add', 'insert', 'put') and not pool:
+            # futures.append(executor.submit(...)): the collected value is evaluated for its effects
+            for a in call_args:
+                if not isinstance(a, ast.Starred):
+                    self.eval(a, st, func, selfobj)
         return Opaque(U(e))
 
     def instantiate(self, cls, call_args, keywords, st, func, selfobj, node):
@@ -1028,6 +1079,18 @@ class Interp:
                 return v.lo, v.count, enum, v.node
         return None
 
+    def _seq_of(self, it, st, func, selfobj):
+        """(SeqV, enumerated?) when the iterable is a list built by a comprehension over a range (held in a local)"""
+        enum = False
+        if isinstance(it, ast.Call) and U(it.func) == 'enumerate' and len(it.args) == 1 and not it.keywords:
+            enum = True
+            it = it.args[0]
+        if isinstance(it, (ast.Name, ast.Attribute)):
+            v = self.eval(it, st, func, selfobj)
+            if isinstance(v, SeqV):
+                return v, enum
+        return None
+
     @staticmethod
     def _effect_free(body):
         for x in body:
@@ -1103,7 +1166,20 @@ class Interp:
         if rng is not None:
             lo, count, enum, _ = rng
         name = '%s@%s.L%d' % (_first_name(s.target), func.name, s.lineno)
-        if count is not None:
+        sq = self._seq_of(s.iter, st, func, selfobj) if rng is None else None
+        if sq is not None:
+            seq, enum = sq
+            count, lo = seq.count, C(0)
+            k = T.declare(name, 0, count, kind='loop', count=count, start=lo, node=s)
+            loop = Loop(name, count, s)
+            loop.lo = lo
+            item = seq.elt.subst({seq.atom: k})
+            if enum and isinstance(s.target, (ast.Tuple, ast.List)) and len(s.target.elts) == 2:
+                self.assign(s.target.elts[0], k, st, func, selfobj)
+                self.assign(s.target.elts[1], item, st, func, selfobj)
+            else:
+                self.assign(s.target, item, st, func, selfobj)
+        elif count is not None:
             k = T.declare(name, 0, count, kind='loop', count=count, start=lo, node=s)
             loop = Loop(name, count, s)
             loop.lo = lo
@@ -1159,6 +1235,17 @@ def _first_name(t):
     if isinstance(t, (ast.Tuple, ast.List)) and t.elts:
         return _first_name(t.elts[-1])
     return U(t).replace(' ', '')
+
+
+class SeqV:
+    """[elt(k) for k in range(lo, lo + count)] held as a value: the element as a polynomial in the loop atom"""
+
+    def __init__(self, count, atom, elt, node):
+        self.count, self.atom, self.elt, self.node = count, atom, elt, node
+        self.length = count
+
+    def __repr__(self):
+        return 'seq(%r for %s < %r)' % (self.elt, self.atom, self.count)
 
 
 class RangeV:
